@@ -96,7 +96,7 @@ package pogreb
 // opened' is how a closed handle is known to stay closed)
 //@ spec func handlesAllocated(dl *datalog) bool = forall i int :: 0 <= i && i < 32767 && dl.segments[i] != nil ==> allocated(dl.segments[i].file.File)
 
-//@ func (dl *datalog) close() (err error) [C02,C03,C09]
+//@ func (dl *datalog) close() (err error) [C02,C03,C09,C15]
 //@   requires inv: dlInv(dl) && dirInjective(dl.opts.FileSystem)
 //@   requires typed: handlesAllocated(dl)
 //@   ensures [C02,C03] closed: err == nil ==> forall i int :: 0 <= i && i < 32767 ==> segClosed(dl, i)
